@@ -343,12 +343,12 @@ class Smooth(_IdOp):
 class Despike(_IdOp):
     @staticmethod
     def gen(rng, x):
-        return dict(sigma=float(rng.choice([1, 3, 5])))
+        return dict(sigma=float(rng.choice([1, 3, 5])), reverse=bool(rng.integers(2)))
 
     @staticmethod
     def apply(x, p, inplace):
         import navis
-        return navis.despike_skeleton(x, sigma=p['sigma'], inplace=inplace)
+        return navis.despike_skeleton(x, sigma=p['sigma'], inplace=inplace, reverse=p.get('reverse', False))
 
 
 @op('heal')
